@@ -610,3 +610,25 @@ Print Assumptions C07_pppoe_cookie_sound.
 Theorem C07_l2tp_challenge_response_total : forall observed d, is_crash (verify_challenge observed d) = false.
 Proof. exact verify_challenge_total. Qed.
 Print Assumptions C07_l2tp_challenge_response_total.
+
+(* ---- DHCPv6 proxy path (pkg/dhcp/relay/v6rewrite.go): the server's reply is walked and patched; IA options nest, so
+   rewriteV6Options is recursive (a self-referential message cannot make it run away: each call works on shorter data) ---- *)
+Theorem C07_relay_v6_server_duid_total : forall pkt, is_crash (get_server_duid pkt) = false.
+Proof. exact get_server_duid_total. Qed.
+Print Assumptions C07_relay_v6_server_duid_total.
+Theorem C07_relay_v6_replace_duid_total : forall pkt duid, is_crash (replace_server_duid pkt duid) = false.
+Proof. exact replace_server_duid_total. Qed.
+Print Assumptions C07_relay_v6_replace_duid_total.
+Theorem C07_relay_v6_rewrite_lifetimes_total : forall pkt pref valid, is_crash (rewrite_v6_lifetimes pkt pref valid) = false.
+Proof. exact rewrite_v6_lifetimes_total. Qed.
+Print Assumptions C07_relay_v6_rewrite_lifetimes_total.
+Theorem C07_relay_v6_rewrite_lifetimes_total_fuel :
+  forall fuel data pref valid, (length data < fuel)%nat -> is_crash (rw6 fuel data pref valid) = false.
+Proof. exact rw6_total. Qed.
+Print Assumptions C07_relay_v6_rewrite_lifetimes_total_fuel.
+(* DHCPv4 relay accessors GetGIAddr / SetGIAddr / GetHops / IncrementHops *)
+Theorem C07_relay_giaddr_hops_total : forall pkt ip,
+  is_crash (get_giaddr pkt) = false /\ is_crash (set_giaddr pkt ip) = false /\ is_crash (get_hops pkt) = false /\
+  is_crash (incr_hops pkt) = false.
+Proof. exact giaddr_hops_total. Qed.
+Print Assumptions C07_relay_giaddr_hops_total.
